@@ -92,8 +92,10 @@ const int BYTES[] = {68, 58, 91, 148, 41, 272, 69, 110, 1000};
 } // namespace
 
 namespace {
-void run_case(verif::Src& s, verif::Stats& st, const bool literal)
+void run_case(verif::Src& s, verif::Stats& st, const int mode)
 {
+    const bool literal = mode == 1;      // compare with ALL feasible subsets
+    const bool literal_tie = mode == 2;  // compare with the minimal feasible subsets, also in the tie-under-weight-limit corner
     // ------------------------------------------------------------------ parameters
     unsigned n = 1 + s.range<unsigned>(0, 19);
     bool sffo = s.chance(40);
@@ -374,7 +376,11 @@ void run_case(verif::Src& s, verif::Stats& st, const bool literal)
                 // skipped combination can be the only weight-feasible one. The comparison is made only outside that corner (see c40_bnb_literal).
                 const bool tie_corner = weight_binding && amount_tie;
                 if (tie_corner) st.cls("bnb-tie-under-weight-limit-not-compared");
-                VCHECK(literal || tie_corner || best_min >= got, "c40.bnb-optimal", "complete search but subset mask", best_min_mask, "has waste", best_min, "< returned waste", got,
+                if (literal_tie) {
+                    VCHECK(best_min >= got, "c40.bnb-optimal-literal", "complete search but minimal subset mask", best_min_mask, "has waste", best_min, "< returned waste", got,
+                           "returned mask", p.mask, "eff_rate", eff_rate, "lt_rate", lt_rate, "target", target, "coc", cost_of_change, "max_weight", max_weight, best_min < got ? dump_pool() : std::string());
+                }
+                VCHECK(literal || literal_tie || tie_corner || best_min >= got, "c40.bnb-optimal", "complete search but subset mask", best_min_mask, "has waste", best_min, "< returned waste", got,
                        "returned mask", p.mask, "feasible", feasible, "minimal", minimal,
                        "eff_rate", eff_rate, "lt_rate", lt_rate, "target", target, "coc", cost_of_change, "max_weight", max_weight, best_min < got ? dump_pool() : std::string());
                 if (best < got) st.cls("bnb-superset-would-be-cheaper"); // informational, see c40_bnb_literal
@@ -472,7 +478,7 @@ VERIF_TARGET(c40_coinselection, nullptr, 24, 420,
              "optimality. BnB optimality is judged against the subsets BnB is designed to consider (feasible subsets none of whose proper subsets is feasible, see the note in the file header). non-trivial = a completed BnB or CoinGrinder search on >=4 groups was compared against brute force with >=2 feasible subsets; "
              "distinct = (n, feerate regime, constraint modes, per-algorithm outcome, number of feasible subsets bucket, selected-set size)")
 {
-    run_case(s, st, /*literal=*/false);
+    run_case(s, st, /*mode=*/0);
 }
 
 // Not registered in bin/props.d/C40.py: the literal reading of the statement ("no other subset satisfying the same constraints has a strictly lower
@@ -481,5 +487,13 @@ VERIF_TARGET(c40_bnb_literal, nullptr, 24, 420,
              "same generator as c40_coinselection; BnB optimality compared against ALL feasible subsets (including supersets of a feasible subset). "
              "Fails on the unchanged tree in the low-feerate regime: see corpus/C40/SENSITIVITY.md")
 {
-    run_case(s, st, /*literal=*/true);
+    run_case(s, st, /*mode=*/1);
+}
+
+// Not registered either: only the second deviation (equal-amount groups skipped although the weight limit makes them non-equivalent).
+VERIF_TARGET(c40_bnb_tie_literal, nullptr, 24, 420,
+             "same generator as c40_coinselection; BnB optimality against the minimal feasible subsets WITHOUT excluding the corner 'weight limit binds and two "
+             "groups tie on the amount'. Fails on the unchanged tree: see corpus/C40/SENSITIVITY.md")
+{
+    run_case(s, st, /*mode=*/2);
 }
